@@ -273,13 +273,13 @@ PROPS['C04'].update({
     'level_text': ('Mixed. PROVED (Verus, all trees, all arguments satisfying the stated dimension preconditions): AffTree::new / with_capacity (identity tree), add_terminal / add_decision / replace_node (unit pwl_misc), the schema constructors (six activations, argmax, class_characterization: well-formed, one common terminal output dimension), compose::<false,false>, reduce, apply_func / apply_func_at_node, AffTree::add_child_node, update_node and from_aff '
                    'each return a tree with Tree::wf (links mirrored, leaf flag <=> no children, single root, acyclic) and aff_shape_ok (every node function has the tree input dimension, every decision has 1..15 rows with 2^rows <= K), '
                    'and none of their unwrap / assert / index panics is reachable; since each postcondition re-establishes the precondition of the next operation, any history over these operations stays well-formed. '
-                   'Also PROVED (unit pwl_compose_pruned): compose::<true,false> / generic_composition_inplace with the pruning schema keeps Tree::wf, aff_shape_ok and one common terminal output dimension and cannot panic FOR EVERY ANSWER PATTERN of the LP-based feasibility oracle '
+                   'Also PROVED (unit pwl_compose_pruned, K = 2 - the pruning oracle builds its path polytope for labels 0 / 1 only): compose::<true,false> / generic_composition_inplace with the pruning schema keeps Tree::wf, aff_shape_ok and one common terminal output dimension and cannot panic FOR EVERY ANSWER PATTERN of the LP-based feasibility oracle '
                    '(is_edge_feasible is left arbitrary except for its root shortcut; ghost map new node -> copied lhs node, the create / skip / keep-last / forward bookkeeping of the children loop is part of the invariant; a pruned child is shown to leave the arena exactly as it was). '
                    'The same for the four in-place tree operators + - * / (unit pwl_ops_tree, see C07). Also PROVED (unit pwl_elim, binary trees): ' + _ELIM_TEXT + 'NOT under contract: negation and the tree/affine mixed operators (closures over terminals_mut). '
                    'BOUNDED (bc histories): random operation histories over all transformations from every constructor, well-formedness (incl. common output dimension) and panic freedom after every step.'),
     'design_ref': 'DESIGN.md §4 C04',
     'assumptions': ASSUME_COMMON + ASSUME_SLAB + ASSUME_ND + ASSUME_PWL + ASSUME_BC + ['see C02 (unit pwl_compose) and C08 (unit pwl_reduce) for the rewrite rules and trusted helpers of those units',
-        'unit pwl_compose_pruned: AffTree::is_edge_feasible is used with the contract PROVED on its real body in unit pwl_feasible (root shortcut `parent_idx == 0 ==> true`; the LP layer behind it is an oracle, so any answer otherwise); the receiver has its root at arena index 0 (true for every tree built by the library constructors); Tree::remove_child is used with the contract proved in unit tree_graph MINUS its arena-size precondition (i32 deletion counter): assumed fewer than 2^31 nodes; rule G1 as for C02 with C = FunctionCompositionInfeasible'] + _ELIM_ASSUME,
+        'unit pwl_compose_pruned: AffTree::is_edge_feasible is used with the contract PROVED on its real body in unit pwl_feasible INCLUDING the construction of the path polytope (K == 2, shape-consistent tree: both are established at the call site - lemma_pr_shape_add; root shortcut `parent_idx == 0 ==> true`; the LP layer behind it is an oracle, so any answer otherwise); the receiver has its root at arena index 0 (true for every tree built by the library constructors); Tree::remove_child is used with the contract proved in unit tree_graph MINUS its arena-size precondition (i32 deletion counter): assumed fewer than 2^31 nodes; rule G1 as for C02 with C = FunctionCompositionInfeasible'] + _ELIM_ASSUME,
 })
 
 PROPS['C01'].update({
@@ -335,14 +335,13 @@ NOT_APPLICABLE = {
 # the decision logic around the LP solver is under contract since unit pwl_feasible (the LP layer, the tolerance test and the repair heuristic stay oracles)
 _FEAS_ASSUME = [
     'unit pwl_feasible: Polytope::status (LP solver, C10), Polytope::contains (tolerance membership) and AffTree::mirror_points (numeric repair) are ORACLES: external_body with uninterpreted results (lp_status, contains_tol; mirror_points: any answer); '
-    'is_edge_feasible is verified TWICE: (i) with polyhedral_path_characterization as a named uninterpreted function of tree and path ASSUMED TOTAL (this is the contract the "any oracle" proofs of compose::<true,_> and the tree operators use; the real function is total exactly for K = 2 trees with shape-consistent decisions - it panics on labels >= 2), '
-    '(ii) as is_edge_feasible_v (K = 2, aff_shape_ok) with polyhedral_path_characterization_v verified on its real body (rule S4: the RefCell scratch buffer is a local Vec; `for (idx, label) in path` is the index loop; float literals / `&m * factor` as in PolyhedraGen::next; Polytope::intersection_n trusted: parts of the given dimension required, result = conjunction of the parts ASSUMED)',
+    'is_edge_feasible and polyhedral_path_characterization are verified on their real bodies for K = 2 and aff_shape_ok trees (the latter panics on labels >= 2: pruning exists for binary trees only): rule S4: the RefCell scratch buffer is a local Vec; `for (idx, label) in path` is the index loop; float literals / `&m * factor` as in PolyhedraGen::next; Polytope::intersection_n trusted: parts of the given dimension required, result = conjunction of the parts ASSUMED (bounded: bc poly)',
     'rule D7: the PerformanceCounter increments (`counter.x += 1`, statistics only) are dropped from phase_inh / phase_two; rule I15 / I16: `solution.iter().filter(|p| hyperplane.contains(p)).map(..).collect_vec()` and `wit.iter().any(|p| poly.contains(p))` are the verified helpers filter_contained / any_contained; `solution.clone().insert_axis(Axis(1))` and `val.t().row(0).to_owned()` are spec-less trusted helpers (their results are re-checked with contains before use); `node_value(i)` is read as tree_node(i).value (rule N2)',
 ]
 _FEAS_TEXT = ('PROVED on the real branching of is_edge_feasible / phase_two / phase_inh (unit pwl_feasible; LP solver, tolerance test and repair heuristic as arbitrary oracles): an edge or node is declared infeasible ONLY on an Infeasible verdict '
               '(cached Infeasible state of the node or its parent, or the LP answer Infeasible) - LP Error, Unbounded and Optimal answers with ANY witness, however displaced, never prune; phase_two returns Infeasible iff the LP says Infeasible, Indeterminate on an LP Error, '
               'and caches a witness only after that very point passed `contains` for that very polytope (the LP point or its repaired version); phase_inh only passes on parent witnesses that passed `contains` for the new half-space; edges leaving node 0 are always feasible. '
-              'MEANING of a verdict (is_edge_feasible_v, binary trees, path polytope built by the real polyhedral_path_characterization): "infeasible" is answered only for a cached Infeasible state of the node / its parent or an Infeasible LP answer for a polytope that EVERY input whose evaluation passes the node satisfies '
+              'MEANING of a verdict (binary trees, path polytope built by the real polyhedral_path_characterization): "infeasible" is answered only for a cached Infeasible state of the node / its parent or an Infeasible LP answer for a polytope that EVERY input whose evaluation passes the node satisfies '
               '(edge_covers: path_to_node gives the (node, label) steps from the root, each contributes the half-space of its edge, an input passing the node leaves every decision of the path through the recorded label - lemma_reaches_routed). ')
 for pid, lvl in (('C11', 'other'), ('C05', 'other'), ('C03', 'other')):
     PROPS[pid]['units'] = ['pwl_feasible'] + (['pwl_elim'] if pid in ('C11', 'C03') else [])
